@@ -617,7 +617,10 @@ RefAnswer(A, E, i) ==
       val == IF all.pos = 0 THEN -1 ELSE ValueAt(A, E, all, i)
   IN [found |-> all.pos # 0 /\ ~badq,
       val |-> val,
-      definite |-> ~fwdq /\ (sofar.pos = 0 \/ SameSym(A, sofar, all)) /\ (all.pos # 0 => val >= 0)]
+      definite |-> /\ ~fwdq /\ (sofar.pos = 0 \/ SameSym(A, sofar, all)) /\ (all.pos # 0 => val >= 0)
+                   \* the manual only says that labels of a macro body are local to it; that a nested expansion also sees
+                   \* the labels of the expansions around it is the code's choice (FindLocNode walks the handle list)
+                   /\ (all.pos # 0 /\ all.home[1] = "L") => all.home[2] = A.mpath[i][1]]
 
 \* ---- errors the manual demands -----------------------------------------------------------------------------------------
 DeclErrors(A, E) ==
